@@ -157,7 +157,13 @@ func c16(args []string) {
 		// oracle 2: whenever the full decoder (checksum ignored) accepts, the raw decoder accepts and both agree on the series
 		lis := &seriesListener{}
 		res := decodeAll(bytes.NewReader(b), len(b), decoder.WithIgnoreChecksum(), decoder.WithMesgListener(lis), decoder.WithMesgDefListener(lis), decoder.WithNoComponentExpansion())
-		if res.err == nil && res.panicked == nil {
+		// "accepts" = every byte belongs to a complete sequence (a cut-off header at the very end is read as the end of the stream by
+		// a buffered full decoder: known finding eof_kind_depends_on_chunking; the raw decoder reports it)
+		whole := 0
+		for _, f := range res.fits {
+			whole += int(f.FileHeader.Size) + int(f.FileHeader.DataSize) + 2
+		}
+		if res.err == nil && res.panicked == nil && whole >= len(b) {
 			stat("full_decoder_accepts", 1)
 			rawItems, seqs := seriesFromRaw(segs)
 			if err != nil {
